@@ -24,6 +24,7 @@ type DBOpts struct {
 	Family       int  // 0 both, 4, 6
 	MinFlows     int  // minimum flows per block
 	NoHardAddrs  bool // exclude IPv6 addresses whose bytes 4..15 are zero (open finding exclusion)
+	AlignedOnly  bool // block timestamps only at multiples of 300 s
 }
 
 // DefaultDays: 2023-12-30 … 2024-01-02 (year and month boundary) and 2024-02-29/03-01.
@@ -77,7 +78,13 @@ func DrawDB(t *rapid.T, o DBOpts) *model.DB {
 					continue
 				}
 				slots[s] = true
-				bl := model.Block{Ts: o.Days[d] + int64(s)*300, Drops: rapid.SampledFrom([]uint64{0, 0, 1, 7, 1000}).Draw(t, fmt.Sprintf("%s.d%d.b%d.drops", name, d, b))}
+				// write-outs are scheduled at multiples of 300 s, but the write-out at shutdown, the one before a
+				// reconfiguration and imported data carry arbitrary seconds: a third of the blocks is off the grid
+				var off int64
+				if !o.AlignedOnly {
+					off = rapid.SampledFrom([]int64{0, 0, 0, 0, 1, 13, 150, 299}).Draw(t, fmt.Sprintf("%s.d%d.b%d.off", name, d, b))
+				}
+				bl := model.Block{Ts: o.Days[d] + int64(s)*300 + off, Drops: rapid.SampledFrom([]uint64{0, 0, 1, 7, 1000}).Draw(t, fmt.Sprintf("%s.d%d.b%d.drops", name, d, b))}
 				nf := rapid.IntRange(o.MinFlows, o.MaxFlows).Draw(t, fmt.Sprintf("%s.d%d.b%d.nflows", name, d, b))
 				seen := map[string]bool{}
 				for f := 0; f < nf; f++ {
